@@ -211,7 +211,8 @@ def expression_of(tgt):
     key = (id(tgt.node))
     if key in cache:
         return cache[key]
-    body = [st for st in tgt.node.body if not (isinstance(st, ast.Expr) and isinstance(st.value, ast.Constant))]
+    body = [st for st in tgt.node.body if not (isinstance(st, ast.Expr) and isinstance(st.value, ast.Constant))
+            and not isinstance(st, (ast.Import, ast.ImportFrom))]
     env = {}
 
     def subst_locals(e):
